@@ -141,6 +141,9 @@ func (g *spineGen) exit(ex Exit, loopsInFn []string) L {
 
 // exitsFor lists the exits applicable under the chain (break/continue need an enclosing loop in
 // the same function).
+// ExitsFor is exported for the other ElkCore properties.
+func ExitsFor(chain []string) []Exit { return exitsFor(chain) }
+
 func exitsFor(chain []string) []Exit {
 	loops := 0
 	for _, p := range chain {
